@@ -81,6 +81,8 @@ type Case struct {
 	Label  string `json:"label,omitempty"`
 	Domain string `json:"domain,omitempty"`
 	Alias  bool   `json:"alias,omitempty"`
+	// OpSize, if non-zero, is the protocol's maximum operation size (the request size limit applied at intake)
+	OpSize uint `json:"maxOperationSize,omitempty"`
 }
 
 const aliasNS = "did:alias"
@@ -302,6 +304,9 @@ func newPipeline(c *Case) *pipeline {
 	}
 	a := wire.BaseProtocol()
 	a.MaxOperationCount = c.Max
+	if c.OpSize != 0 {
+		a.MaxOperationSize = c.OpSize
+	}
 	var trOpts []didtransformer.Option
 	if c.MethodContexts {
 		trOpts = append(trOpts, didtransformer.WithMethodContext(methodContexts))
